@@ -195,3 +195,36 @@ Theorem C10_perp_spacing_is_monotone : forall (sp dist : list R) si x y, incr sp
   s_of_sperp Rops sp dist si x <= s_of_sperp Rops sp dist si y.
 Proof. exact s_of_sperp_monotone. Qed.
 Print Assumptions C10_perp_spacing_is_monotone.
+
+(* interior monotonicity of the sqrt form (getSqrtPoloidalDistanceFunc with both end gradients): the main piece of every case is
+   2 a_lower sqrt(i/Nn) + 2 a_upper (sqrt(N/Nn) - sqrt((N-i)/Nn)) + the monotonic cubic for the reduced length and end gradients, hence strictly
+   increasing on the whole of [0, N] under an explicit condition on the inputs, for every N, N_norm and length *)
+From HT Require Import Proof_SqrtMono.
+Theorem C10_sqrt_form_decomposition : forall L N Nn al bl au bu i, 0 < N -> 0 < Nn ->
+  S_sqrt2_gen_main L N Nn al bl au bu i =
+  2 * al * sqrt (i / Nn) + 2 * au * (sqrt (N / Nn) - sqrt ((N - i) / Nn))
+  + S_mono_convex_main (red_L L N Nn al au) N Nn (red_bl N Nn bl au) (red_bu N Nn bu al) i.
+Proof. exact sqrt2_gen_decomposition. Qed.
+Print Assumptions C10_sqrt_form_decomposition.
+
+Theorem C10_sqrt_form_increases : forall L N Nn al bl au bu eps, 0 < N -> 0 < Nn -> 0 <= al -> 0 <= au ->
+  0 < red_bl N Nn bl au -> 0 < red_bu N Nn bu al -> 0 <= eps ->
+  red_L L N Nn al au >= (red_bu N Nn bu al + red_bl N Nn bl au) / 2 * (N / Nn) - eps ->
+  3 * eps * Nn / (2 * N) < Rmin (red_bl N Nn bl au) (red_bu N Nn bu al) ->
+  forall x y, 0 <= x -> x < y -> y <= N -> S_sqrt2_gen_main L N Nn al bl au bu x < S_sqrt2_gen_main L N Nn al bl au bu y.
+Proof. exact sqrt2_gen_increasing. Qed.
+Print Assumptions C10_sqrt_form_increases.
+
+Theorem C10_sqrt_form_special_cases_increase : forall L N Nn bl au bu eps, 0 < N -> 0 < Nn -> 0 <= eps ->
+  (0 <= au -> 0 < red_bl N Nn bl au -> 0 < bu ->
+   red_L L N Nn 0 au >= (bu + red_bl N Nn bl au) / 2 * (N / Nn) - eps -> 3 * eps * Nn / (2 * N) < Rmin (red_bl N Nn bl au) bu ->
+   forall x y, 0 <= x -> x < y -> y <= N -> S_sqrt2_a0_main L N Nn 0 bl au bu x < S_sqrt2_a0_main L N Nn 0 bl au bu y) /\
+  (0 < bl -> 0 < bu -> L >= (bu + bl) / 2 * (N / Nn) - eps -> 3 * eps * Nn / (2 * N) < Rmin bl bu ->
+   (forall i, S_sqrt2_00_main L N Nn 0 bl 0 bu i = S_mono_convex_main L N Nn bl bu i) /\
+   forall x y, 0 <= x -> x < y -> y <= N -> S_sqrt2_00_main L N Nn 0 bl 0 bu x < S_sqrt2_00_main L N Nn 0 bl 0 bu y).
+Proof.
+  intros L N Nn bl au bu eps HN HNn He. split.
+  - intros. apply (sqrt2_a0_increasing L N Nn bl au bu eps); assumption.
+  - intros. split; [intros; apply sqrt2_00_plain; assumption | apply (sqrt2_00_increasing L N Nn bl bu eps); assumption].
+Qed.
+Print Assumptions C10_sqrt_form_special_cases_increase.
